@@ -186,16 +186,25 @@ fn run_job(f: &[&str]) -> String {
             format!("OK\t{}", s.join(","))
         }
         // line <offset> <hex text>
+        #[cfg(not(no_line_job))]
         "line" => {
             let text = unhex(f[2]);
             format!("OK\t{}", utils::get_line_number(f[1].parse().unwrap(), &text))
         }
+        // a helper whose signature changed in the tree under analysis: the job is compiled out (see prepare.py)
+        #[cfg(no_line_job)]
+        "line" => "UNAVAILABLE".to_string(),
         // slots a,b,c
+        #[cfg(not(no_slots_job))]
         "slots" => {
             let v: Vec<u16> = if f[1].is_empty() { vec![] } else { f[1].split(',').map(|x| x.parse().unwrap()).collect() };
             format!("OK\t{}", utils::storage_slots_used(v))
         }
+        // a helper whose signature changed in the tree under analysis: the job is compiled out (see prepare.py)
+        #[cfg(no_slots_job)]
+        "slots" => "UNAVAILABLE".to_string(),
         // typesize <path of a file `T x;` at file level> -> size of the first file-level variable's type
+        #[cfg(not(no_typesize_job))]
         "typesize" => {
             let src = std::fs::read_to_string(f[1]).unwrap();
             let su = match solang_parser::parse(&src, 0) {
@@ -209,13 +218,21 @@ fn run_job(f: &[&str]) -> String {
             }
             "NOVAR".to_string()
         }
+        // a helper whose signature changed in the tree under analysis: the job is compiled out (see prepare.py)
+        #[cfg(no_typesize_job)]
+        "typesize" => "UNAVAILABLE".to_string(),
         // version <hex pragma value> -> a.b.c components as returned
+        #[cfg(not(no_version_job))]
         "version" => {
             let s = unhex(f[1]);
             let v = utils::get_solidity_major_minor_patch_version(&s);
             format!("OK\t{}", v.join("."))
         }
+        // a helper whose signature changed in the tree under analysis: the job is compiled out (see prepare.py)
+        #[cfg(no_version_job)]
+        "version" => "UNAVAILABLE".to_string(),
         // fileversion <path> -> None | a,b,c
+        #[cfg(not(no_fileversion_job))]
         "fileversion" => {
             let src = std::fs::read_to_string(f[1]).unwrap();
             let su = match solang_parser::parse(&src, 0) {
@@ -227,6 +244,9 @@ fn run_job(f: &[&str]) -> String {
                 Some((a, b, c)) => format!("OK\t{},{},{}", a, b, c),
             }
         }
+        // a helper whose signature changed in the tree under analysis: the job is compiled out (see prepare.py)
+        #[cfg(no_fileversion_job)]
+        "fileversion" => "UNAVAILABLE".to_string(),
         // strto <category> <hex name>
         "strto" => {
             let s = unhex(f[2]);
